@@ -19,7 +19,18 @@ theorem delivered_auth (s : State) (m : InMsg) (src : SockAddr) (r : Req)
     (hl : lookup s.out m.tid = some r) (hc : r.hadCreds = true)
     (h : (step s (.handle m src)).2 = .response) :
     ∃ k, s.remoteCreds = some k ∧ m.validUnder k = true := by
-  sorry
+  by_cases hr : m.isResponse = true
+  · simp only [step, hr, hl, hc, if_true] at h
+    cases hrc : s.remoteCreds with
+    | none => rw [hrc] at h; cases h
+    | some k =>
+      rw [hrc] at h
+      dsimp only at h
+      by_cases hv : m.validUnder k = true
+      · exact ⟨k, rfl, hv⟩
+      · rw [if_neg hv] at h; cases h
+  · simp only [step, hr] at h
+    cases h
 
 /-- a response that does not validate (no integrity, wrong key, corrupted) or arrives while no
     remote credentials are configured is dropped; every transaction keeps its complete state
@@ -34,20 +45,29 @@ theorem forged_dropped (s : State) (m : InMsg) (src : SockAddr) (r : Req)
     (step s (.handle m src)).1.remoteCreds = s.remoteCreds ∧
     (step s (.handle m src)).1.transport = s.transport ∧
     (step s (.handle m src)).1.localAddr = s.localAddr := by
-  sorry
+  have hlk : ∀ tid, lookup (insert (remove s.out m.tid) m.tid r) tid = lookup s.out tid := by
+    intro tid
+    by_cases e : tid = m.tid
+    · rw [e, lookup_insert_self, hl]
+    · rw [lookup_insert_ne _ _ _ _ e, lookup_remove_ne _ _ _ e]
+  rcases hbad with hn | ⟨k, hk, hv⟩
+  · simp only [step, hr, hl, hc, hn, if_true]
+    exact ⟨trivial, hlk, trivial, trivial, trivial, trivial⟩
+  · simp only [step, hr, hl, hc, hk, hv, if_true, Bool.false_eq_true, if_false]
+    exact ⟨trivial, hlk, trivial, trivial, trivial, trivial⟩
 
 /-- … and, ids being unique keys, the state after the drop is the state before it up to storage
     order -/
 theorem forged_equiv (s : State) (hk : KeysNodup s) (m : InMsg) (src : SockAddr)
     (h : (step s (.handle m src)).2 = .drop) : (step s (.handle m src)).1.Equiv s := by
-  sorry
+  exact handle_drop_equiv s hk m src h
 
 /-- storage order is unobservable: equivalent states answer every call alike and stay equivalent,
     given the same choice of which ready transaction a poll serves -/
 theorem equiv_step (s s' : State) (he : s.Equiv s') (hk : KeysNodup s) (op : Op) :
     ∃ op', SameCall op op' ∧ (step s op).2 = (step s' op').2 ∧
       (step s op).1.Equiv (step s' op').1 ∧ KeysNodup (step s op).1 := by
-  sorry
+  exact step_equiv he hk op
 
 /-- forged responses cannot delay, complete or cancel anything: whatever the caller does after a
     dropped response, the replies are those it would have received had the response never arrived
@@ -56,7 +76,8 @@ theorem forged_no_effect (s : State) (hr : Reachable s) (m : InMsg) (src : SockA
     (h : (step s (.handle m src)).2 = .drop) (ops : List Op) :
     ∃ ops', SameCalls ops ops' ∧
       (trace (step s (.handle m src)).1 ops).map (·.2) = (trace s ops').map (·.2) := by
-  sorry
+  have hk := keysNodup_of_reachable hr
+  exact trace_equiv ops (handle_drop_equiv s hk m src h) (keysNodup_step hk _)
 
 /-- a later genuine response is still delivered -/
 theorem genuine_after_forged (s : State) (m m' : InMsg) (src src' : SockAddr) (r : Req) (k : Key)
@@ -64,19 +85,22 @@ theorem genuine_after_forged (s : State) (m m' : InMsg) (src src' : SockAddr) (r
     (hr' : m'.isResponse = true) (ht : m'.tid = m.tid) (hk : s.remoteCreds = some k)
     (hv : m'.validUnder k = true) :
     (step (step s (.handle m src)).1 (.handle m' src')).2 = .response := by
-  sorry
+  obtain ⟨hr, hc, hv0, e⟩ := handle_drop_some s m src r k hl hk hd
+  rw [e]
+  simp only [step, hr', ht, lookup_insert_self, hc, hk, hv, if_true]
 
 /-- a request sent without integrity accepts an unauthenticated response -/
 theorem plain_accepts (s : State) (m : InMsg) (src : SockAddr) (r : Req)
     (hr : m.isResponse = true) (hl : lookup s.out m.tid = some r) (hc : r.hadCreds = false) :
     (step s (.handle m src)).2 = .response := by
-  sorry
+  simp only [step, hr, hl, hc, if_true]
+  rfl
 
 /-- `hadCreds` is fixed when the request is sent and never changes while it is outstanding -/
 theorem had_creds_fixed (s : State) (op : Op) (tid : Nat) (r r' : Req)
     (hl : lookup s.out tid = some r) (hl' : lookup (step s op).1.out tid = some r') :
     r'.hadCreds = r.hadCreds := by
-  sorry
+  exact step_hadCreds s op tid r r' hl hl'
 
 /-! Non-vacuity: a sealed request; a forged response, then a genuine one. -/
 example :
